@@ -586,7 +586,8 @@ fn hash_addrs(i: &Input) -> String {
     let mut same = true;
     let mut v = addrs.clone();
     for _ in 0..addrs.len().max(1) {
-        v.rotate_left(1.min(v.len()));
+        let k = 1.min(v.len());
+        v.rotate_left(k);
         if run(&v) != base { same = false; }
         let mut r = v.clone(); r.reverse();
         if run(&r) != base { same = false; }
